@@ -103,7 +103,7 @@ def helper_case(rng, fam, g, doc: Node, docs, helper, fixed=None):
                     out, err = ops.run(tr, lambda t: t.insert(p, node))
                     performed = out == "ok"
         elif helper == "drop_point":
-            sl = g.slice_from(rng.choice(docs))
+            sl = gen.slice_from_json(sc, fixed["slice"]) if "slice" in fixed else g.slice_from(rng.choice(docs))
             args["slice"] = gen.slice_to_json(sl)
             p = structure.drop_point(doc, a, sl)
             approved = p is not None
@@ -168,7 +168,21 @@ def generate(rng: random.Random, tier: str):
 
 
 def rebuild(desc):
-    raise NotImplementedError
+    """re-run a recorded helper case on the current implementation (helpers whose arguments are all in the
+    description: can_split, can_join, join_point, lift_target, drop_point)"""
+    helper, args = desc["helper"], desc["args"]
+    if helper not in ("can_split", "can_join", "join_point", "lift_target", "drop_point"):
+        raise NotImplementedError
+    fam = desc["family"]
+    sc = gen.family(fam)
+    rng = random.Random(0)
+    g = gen.DocGen(sc, rng)
+    doc = Node.from_json(sc, desc["doc"])
+    fixed = {"a": args["pos"], "c": args.get("to", args["pos"])}
+    for k in ("depth", "dir", "slice"):
+        if k in args:
+            fixed[k] = args[k]
+    return helper_case(rng, fam, g, doc, [doc], helper, fixed)
 
 
 def classify(case):
